@@ -69,6 +69,11 @@ class LoadBalancerSink(ClientMessageSink):
         gevent.sleep(5)
         continue
 
+      if self._state == ChannelState.Closed:
+        # Closed while the server set was loading (the kill issued by Close()
+        # has not been delivered yet): do not open anything.
+        return
+
       random.shuffle(server_set)
       self._servers = {}
       [self.__AddServer(m) for m in server_set]
